@@ -17,6 +17,7 @@ type Rows struct {
 	Err    string   `json:"err"`    // why not
 	Conn   []string `json:"conn"`   // "src|dst|CONN" of the connectivity section
 	X      []string `json:"x"`      // exposure rows "W|Ingress/Egress|entire/sel|CONN" (a bag: duplicates get a #k suffix)
+	XSel   []string `json:"xsel"`   // exposure rows with the canonicalised representative peer "W|dir|CANONREP|CONN" (not for dot)
 	XRep   []string `json:"xrep"`   // exposure rows with the printed representative peer "W|dir|REP|CONN" (not for dot / api)
 	XIP    []string `json:"xip"`    // IP rows repeated inside exposure sections "src|dst|CONN"
 	Unprot []string `json:"unprot"` // "W|Ingress" / "W|Egress" lines of the unprotected section (formats that have one)
@@ -24,7 +25,7 @@ type Rows struct {
 }
 
 func NewRows() Rows {
-	return Rows{OK: true, Conn: []string{}, X: []string{}, XRep: []string{}, XIP: []string{}, Unprot: []string{}}
+	return Rows{OK: true, Conn: []string{}, X: []string{}, XRep: []string{}, XSel: []string{}, XIP: []string{}, Unprot: []string{}}
 }
 
 // Bag turns a multiset into a set by numbering duplicates.
@@ -157,11 +158,17 @@ func (r *Rows) addX(w, other, dir, conn string) {
 	}
 	r.X = append(r.X, w+"|"+dir+"|"+kind+"|"+c)
 	r.XRep = append(r.XRep, w+"|"+dir+"|"+other+"|"+c)
+	canon, ok := CanonRepLabel(other)
+	if !ok {
+		r.fail("cannot parse the exposure peer label %q", other)
+	}
+	r.XSel = append(r.XSel, w+"|"+dir+"|"+canon+"|"+c)
 }
 
 func (r *Rows) finish() {
 	r.X = Bag(r.X)
 	r.XRep = Bag(r.XRep)
+	r.XSel = Bag(r.XSel)
 	r.XIP = Bag(r.XIP)
 	r.Conn = Bag(r.Conn)
 	r.Unprot = Bag(r.Unprot)
@@ -606,4 +613,116 @@ func ParseDiffDot(out string) DiffRows {
 	r.Unchanged = Bag(r.Unchanged)
 	sort.Strings(r.Nodes)
 	return r
+}
+
+// ---------------------------------------------------------------------------------------------------
+// Representative peers of the exposure sections ("what a workload is exposed to"), canonically:
+//   entire                                 entire-cluster
+//   <nsPart>/<podPart>                     nsPart: name:<ns> | all | sel{items}      podPart: all | sel{items}
+//   items, sorted, joined by ';':          k=v        (matchLabels)        k|Op|v1 v2   (matchExpressions, values as given)
+// CanonRepLabel parses the label the tool prints (txt / md / csv / json); RepFromAPI renders the structured API value.
+
+// Req is one matchExpressions requirement.
+type Req struct {
+	Key  string
+	Op   string
+	Vals []string
+}
+
+const nsNameLabelKey = "kubernetes.io/metadata.name"
+
+var reqText = regexp.MustCompile(`^\{Key:(.*),Operator:(\w+),Values:\[(.*)\],\}$`)
+
+func splitDepth0(s string, sep byte) []string {
+	var out []string
+	depth, start := 0, 0
+	for i := 0; i < len(s); i++ {
+		switch s[i] {
+		case '{', '[':
+			depth++
+		case '}', ']':
+			depth--
+		default:
+			if s[i] == sep && depth == 0 {
+				out = append(out, s[start:i])
+				start = i + 1
+			}
+		}
+	}
+	return append(out, s[start:])
+}
+
+func canonItems(body string) (string, bool) {
+	var items []string
+	for _, it := range splitDepth0(body, ',') {
+		if m := reqText.FindStringSubmatch(it); m != nil {
+			items = append(items, m[1]+"|"+m[2]+"|"+m[3])
+		} else if strings.Contains(it, "=") && !strings.ContainsAny(it, "{}[]") {
+			items = append(items, it)
+		} else {
+			return "", false
+		}
+	}
+	sort.Strings(items)
+	return "sel{" + strings.Join(items, ";") + "}", true
+}
+
+func canonPart(part, allText, withText string, plainIsName bool) (string, bool) {
+	if strings.HasPrefix(part, "[") && strings.HasSuffix(part, "]") {
+		part = part[1 : len(part)-1]
+	} else if plainIsName {
+		if part == "" || strings.ContainsAny(part, "{}[] ") {
+			return "", false
+		}
+		return "name:" + part, true
+	}
+	if part == allText {
+		return "all", true
+	}
+	if strings.HasPrefix(part, withText+" {") && strings.HasSuffix(part, "}") {
+		return canonItems(part[len(withText)+2 : len(part)-1])
+	}
+	return "", false
+}
+
+// CanonRepLabel canonicalises a printed exposure peer label.
+func CanonRepLabel(label string) (string, bool) {
+	if label == "entire-cluster" {
+		return "entire", true
+	}
+	parts := splitDepth0(label, '/')
+	if len(parts) != 2 {
+		return "", false
+	}
+	ns, ok1 := canonPart(parts[0], "all namespaces", "namespace with", true)
+	pod, ok2 := canonPart(parts[1], "all pods", "pod with", false)
+	return ns + "/" + pod, ok1 && ok2
+}
+
+func selFromAPI(ml map[string]string, ex []Req) string {
+	if len(ml) == 0 && len(ex) == 0 {
+		return "all"
+	}
+	var items []string
+	for k, v := range ml {
+		items = append(items, k+"="+v)
+	}
+	for _, e := range ex {
+		items = append(items, e.Key+"|"+e.Op+"|"+strings.Join(e.Vals, " "))
+	}
+	sort.Strings(items)
+	return "sel{" + strings.Join(items, ";") + "}"
+}
+
+// RepFromAPI renders an exposure entry of the API canonically. A namespace selector that consists of the
+// namespace-name label alone denotes that namespace by name.
+func RepFromAPI(entire bool, nsML map[string]string, nsEx []Req, podML map[string]string, podEx []Req) string {
+	if entire {
+		return "entire"
+	}
+	ns := selFromAPI(nsML, nsEx)
+	if n, ok := nsML[nsNameLabelKey]; ok && len(nsML) == 1 && len(nsEx) == 0 {
+		ns = "name:" + n
+	}
+	return ns + "/" + selFromAPI(podML, podEx)
 }
